@@ -333,6 +333,10 @@ def gen_case_group(rng, tp, ET):
 
 def gen_case_predict(rng, thorough):
     n, es = gen_tree(rng)
+    crowded = rng.random() < 0.05                   # > 16 peaks in a sample, on purpose (argsort / unique orderings
+    if crowded:                                     # of torch are only trivially stable on small inputs)
+        while n < 5:
+            n, es = gen_tree(rng)
     if rng.random() < 0.08:
         n += 1                                      # a node type outside every edge
     B = rng.choice([1, 1, 2, 3])
@@ -343,6 +347,8 @@ def gen_case_predict(rng, thorough):
     for b in range(B):
         if B > 1 and rng.random() < 0.3:
             counts = [0] * n                       # an empty frame inside a batch
+        elif crowded:
+            counts = [rng.choice([3, 4, 4]) for _ in range(n)]
         else:
             counts = gen_counts(rng, n)
         peaks = []
@@ -362,7 +368,8 @@ def gen_case_predict(rng, thorough):
             "paf_seed": rng.randrange(1 << 30), "paf_style": rng.choice(["noise", "noise", "const", "zero"]),
             "n_points": rng.choice([1, 2, 5, 10]), "mip": rng.choice(MIPS),
             "mls": rng.choice([F(-1), F(0), F(1, 4), F(1, 4), F(1, 2)]),
-            "melr": rng.choice([0.25, 0.5, 1.0]), "dpw": rng.choice([0.0, 1.0, 2.0]),
+            "melr": rng.choice([0.25, 0.5, 1.0, 0.05]), "dpw": rng.choice([0.0, 1.0, 2.0]),
+            "via": rng.choice(["init", "from_config"]),
             "samples": samples}
 
 
@@ -555,9 +562,18 @@ class Impl:
     def predict(self, c):
         t, pg = self.torch, self.pg
         n = c["n_nodes"]
-        sc = pg.PAFScorer(part_names=[str(i) for i in range(n)], edges=[(str(u), str(v)) for u, v in c["edges"]],
-                          pafs_stride=c["stride"], max_edge_length_ratio=c["melr"], dist_penalty_weight=c["dpw"],
-                          n_points=c["n_points"], min_instance_peaks=c["mip"], min_line_scores=float(c["mls"]))
+        if c.get("via") == "from_config":           # the constructor BottomUpPredictor uses (OmegaConf lists)
+            from omegaconf import OmegaConf
+            cfg = OmegaConf.create({"confmaps": {"part_names": [str(i) for i in range(n)]},
+                                    "pafs": {"edges": [[str(u), str(v)] for u, v in c["edges"]],
+                                             "output_stride": c["stride"]}})
+            sc = pg.PAFScorer.from_config(cfg, max_edge_length_ratio=c["melr"], dist_penalty_weight=c["dpw"],
+                                          n_points=c["n_points"], min_instance_peaks=c["mip"],
+                                          min_line_scores=float(c["mls"]))
+        else:
+            sc = pg.PAFScorer(part_names=[str(i) for i in range(n)], edges=[(str(u), str(v)) for u, v in c["edges"]],
+                              pafs_stride=c["stride"], max_edge_length_ratio=c["melr"], dist_penalty_weight=c["dpw"],
+                              n_points=c["n_points"], min_instance_peaks=c["mip"], min_line_scores=float(c["mls"]))
         pafs = make_pafs(c, t)
         pts = [self.peak_tensors(p) for p in c["samples"]]
         nest = t.nested.nested_tensor
@@ -988,6 +1004,9 @@ def check(run: core.Run) -> int:
             run.case(enc({"c": strip(c), "b": b}), nontrivial=npk >= 3 and len(per["cands"]) >= 2)
             dist["predict:peaks=0" if npk == 0 else "predict:peaks>0"] = dist.get(
                 "predict:peaks=0" if npk == 0 else "predict:peaks>0", 0) + 1
+            for key in (["predict:peaks>16"] if npk > 16 else []) + [f"predict:via={c.get('via', 'init')}",
+                                                                     f"predict:mip={c['mip']!r}"]:
+                dist[key] = dist.get(key, 0) + 1
             why = None
             if srt != r["sorted"] or r["edge_types"] != [tuple(e) for e in c["edges"]]:
                 why = f"sorted_edge_inds impl {r['sorted']} model {srt}"
@@ -1037,6 +1056,11 @@ def check(run: core.Run) -> int:
     run.obligation("correspondence: Grouping.run (Coq, vm_compute) == paf_grouping.py (/repo) on every case; "
                    "scipy's answers meet the oracle contract (validity + optimal total vs brute force)",
                    stats["disagreements"] == 0 and not broken, f"{stats['disagreements']} disagreements")
+    run.obligation("generator strength: predict samples with > 16 peaks (orderings of torch.argsort / unique beyond the "
+                   "small-input regime) and both PAFScorer constructors (__init__, from_config) are generated on purpose",
+                   dist.get("predict:peaks>16", 0) >= 10 and dist.get("predict:via=from_config", 0) >= 20
+                   and dist.get("predict:via=init", 0) >= 20,
+                   f"{dist.get('predict:peaks>16', 0)} samples > 16 peaks; from_config {dist.get('predict:via=from_config', 0)}")
     run.coverage.update({
         "input_distribution": dist, "model_cases_fired_in_assign_stream": fired, **stats,
         "f3_behaviour": {"fixed_F3": fx, "big": str(big)},
